@@ -230,6 +230,22 @@ CLAIMS["C11"] = dict(
                   "MIR call-graph SCC audit; must-pass-through of the depth pre-check",
     engine="tablex+cfgq")
 
+CLAIMS["C06"] = dict(
+    cat="other",
+    text="Decides on a bounded family: ~1600 fragments (wrapper chains up to length 2 over every leaf, every binary / "
+         "ternary combinator over typed sub-fragments of every base type, thresholds; segwit v0 and tapscript) are typed "
+         "by the library's own rules (from_tree -> from_ast -> type_check evaluated from the typed syntax tree); for each "
+         "accepted fragment the specification's Script is executed by a reference executor on every input stack up to "
+         "length 3 over {0, 1, 2, valid / foreign signatures, keys, right / wrong preimages, junk} and all single "
+         "substitutions of the canonical witnesses, and the label predictions are checked: B / V / K / W stack shapes, "
+         "z / o / n consumption, u, d, s, f, and that canonical (dis)satisfactions leave non-zero / zero.",
+    note="Trusted: spec/typesem.py (label meanings incl. the MINIMALIF assumption), spec/msexec.py, spec/script.py; C05 "
+         "(rules == specification) and C04 (encoder == templates) connect the labels and scripts to the library; rustc "
+         "THIR; evaluator. `e` and `m` (third-party malleation) and deeper fragments are not decided.",
+    tech=STATIC + "library typing by abstract evaluation of THIR + bounded model check of label predictions against a "
+                  "reference Script semantics",
+    engine="tablex")
+
 NA = {
     "C15": "commitment arithmetic over hashes with shape-dependent index arithmetic: no sound structural argument in "
            "reach decides it; structural residue (depth bounds, constructor discipline, cache coherence, order "
